@@ -2,7 +2,7 @@
 # import_seeded.sh <PID> : copy /tmp/mut/out/<PID>/{a,b} into seeded/<PID>-a, seeded/<PID>-b with a meta.json skeleton
 set -e
 P=$1
-for k in a b; do
+for k in a b c d e f; do
   src=/tmp/mut/out/$P/$k
   [ -f $src/patch.diff ] || continue
   dst=/verif/seeded/$P-$k
